@@ -325,6 +325,7 @@ func Verif_C03_TokenRecovery() {
 	rt.RedisFail(true)
 	lim.AllowN(now, 1)
 	rt.Assert(lim.redisAlive == 0 && lim.monitorStarted, "a store error marks the limiter down and starts the monitor")
+	private := lim.rescueLimiter
 	go func() {
 		rt.Yield()
 		rt.Cover("lateFailure")
@@ -334,6 +335,7 @@ func Verif_C03_TokenRecovery() {
 	rt.WaitIdle()
 	rt.Assert(atomic.LoadUint32(&lim.redisAlive) == 1, "after the store is back the limiter returns to the shared bucket: it is never left marked down with no monitor running")
 	rt.Cover("recovered")
+	rt.Assert(lim.rescueLimiter == private, "the private bucket used during outages is the same object across recoveries: it is not replaced (i.e. refilled to burst) when the store comes back")
 	runs := rt.RedisScriptRuns()
 	lim.AllowN(now, 1)
 	rt.Assert(rt.RedisScriptRuns() == runs+1, "a recovered limiter consults the store again")
